@@ -78,7 +78,14 @@ func (its *OrdaService) PatchDocument(goCtx gocontext.Context, req *model.PatchM
 
 		pushPullHandler := newPushPullHandler(ctx, ppp, clientDoc, collectionDoc, its.managers)
 		pppCh := pushPullHandler.Start()
-		_ = <-pppCh
+		// a patch whose operations were not stored has not happened: its caller must not get the patched document
+		if res := <-pppCh; res.GetPushPullPackOption().HasErrorBit() {
+			msg := "fail to push the patch"
+			if len(res.Operations) > 0 {
+				msg = string(res.Operations[0].Body)
+			}
+			return nil, errors.NewRPCError(errors.ServerDBQuery.New(ctx.L(), msg))
+		}
 	}
 
 	return &model.PatchMessage{
